@@ -529,10 +529,20 @@ fn sem_mutviews() -> Option<String> {
         let mut n0: GenericArray<GenericArray<u32, U2>, U0> = GenericArray::generate(|_| GenericArray::generate(|_| 0));
         let f: &mut GenericArray<u32, U0> = (&mut n0).flatten();
         let mut z0: GenericArray<GenericArray<u32, U0>, U3> = GenericArray::generate(|_| GenericArray::generate(|_| 0));
+        let z0p = z0.as_mut_ptr() as usize;
         let f2: &mut GenericArray<u32, U0> = (&mut z0).flatten();
-        l1 + f.len() + f2.len()
+        // an empty view is still a view OF THE SOURCE: same address (a dangling `&mut []` is a different object)
+        let moved = (f2.as_ptr() as usize != z0p) as usize * 1000;
+        let z1: GenericArray<GenericArray<u32, U0>, U3> = GenericArray::generate(|_| GenericArray::generate(|_| 0));
+        let f3: &GenericArray<u32, U0> = (&z1).flatten();
+        let moved2 = (f3.as_ptr() as usize != z1.as_ptr() as usize) as usize * 1000;
+        let mut e1: GenericArray<u32, U0> = GenericArray::generate(|_| 0);
+        let e1p = e1.as_mut_ptr() as usize;
+        let u1: &mut GenericArray<GenericArray<u32, U2>, U0> = (&mut e1).unflatten();
+        let moved3 = (u1.as_ptr() as usize != e1p) as usize * 1000;
+        l1 + f.len() + f2.len() + moved + moved2 + moved3
     }));
-    match r { Err(_) => return Some("flatten / unflatten of an empty `&mut` array panicked".into()), Ok(k) if k != 0 => return Some("empty flatten / unflatten views are not empty".into()), _ => {} }
+    match r { Err(_) => return Some("flatten / unflatten of an empty `&mut` array panicked".into()), Ok(k) if k >= 1000 => return Some("flatten / unflatten of an empty shape (inner length 0 / outer length 0) returns a view that does not start at the source's address".into()), Ok(k) if k != 0 => return Some("empty flatten / unflatten views are not empty".into()), _ => {} }
     let mut n = [0u32; 4];
     let nb2 = n.as_mut_ptr() as usize;
     { let g: &mut GenericArray<u32, U4> = (&mut n).into(); if g.as_ptr() as usize != nb2 { return Some("From<&mut [T; N]>: not the same storage".into()); } }
